@@ -42,7 +42,7 @@ def short_loc(l):
 def run(rep, ctx):
     repo = ctx["repo"]
     _REPO[0] = repo
-    jobs = [dict(unit=U, fn=[r"mp::pre::VCString::.*", r"mp::FlatConverter::(PresolveNames|TransferNames2Node)",
+    jobs = [dict(unit=U, fn=[r"mp::pre::VCString::.*", r"mp::FlatConverter::(PresolveNames|TransferNames2Node|FinishModelInput)",
                              r"mp::ConstraintKeeper::(CopyNamesFromValueNodes|CopyNames2ValueNodes)",
                              r"mp::ConstraintManager::CopyNamesFromValueNodes",
                              r"mp::pre::(CopyLink|Many2ManyLink)::(PresolveNames|PostsolveNames|CopySrcDest|DistributeFromSrc2Dest|Distr)",
@@ -189,6 +189,33 @@ def run(rep, ctx):
         txt = render(ps[0])
         t1.check(all(n in " ".join(render(x) for x in walk(ps[0]) if x["k"] == "MemberExpr") for n in ("var_names_", "con_names_", "obj_names_")),
                  "PresolveNames|sources", short_loc(ps[0].get("l")), "the presolve takes variable, constraint and objective names")
+    def implied_by_var_names(n, pol):
+        """is the condition (node n taken with polarity pol) true whenever variable names are present?"""
+        while n["k"] in ("ParenExpr", "ImplicitCastExpr", "ExprWithCleanups") and n.get("c"):
+            n = n["c"][0]
+        if n["k"] == "UnaryOperator" and n.get("op") == "!":
+            return implied_by_var_names(n["c"][0], not pol)
+        if n["k"] == "BinaryOperator" and n.get("op") in ("&&", "||"):
+            both = (n["op"] == "&&") == pol
+            r = [implied_by_var_names(c, pol) for c in n["c"]]
+            return all(r) if both else any(r)
+        t = render(n).replace(" ", "").replace("this->", "")
+        if pol:
+            return t in ("var_names_.size()", "var_names_.size()>0", "var_names_.size()!=0", "0<var_names_.size()", "var_names_.size()>=1")
+        return t in ("var_names_.empty()", "var_names_.size()==0")
+    if ps:
+        fs = pn.cfg.facts_at(ps[0])
+        bad = [render(pn.nodes[c]) for c, pol in fs if not implied_by_var_names(pn.nodes[c], pol)]
+        t1.check(not bad, "PresolveNames|guard", short_loc(pn.loc),
+                 "names are presolved and installed whenever variable names were read (the only condition on the way is the presence of variable names)",
+                 "PresolveNames is skipped under condition(s) %s that can fail although names were requested and read - the solver then gets unnamed items" % bad)
+    fmi = one("mp::FlatConverter::FinishModelInput")
+    cpn, cpush, ccv = calls(fmi, name="PresolveNames"), calls(fmi, name="PushModelTo"), calls(fmi, name="ConvertModel")
+    t1.check(len(cpn) == 1 and len(cpush) == 1 and len(ccv) == 1 and not fmi.cfg.facts_at(cpn[0]) and
+             fmi.cfg.dominates(ccv[0], cpn[0]) and fmi.cfg.dominates(cpn[0], cpush[0]),
+             "FinishModelInput|names-between-convert-and-push", short_loc(fmi.loc),
+             "names are presolved unconditionally after the model is converted (all derived items exist) and before it is pushed to the solver",
+             "FinishModelInput does not run PresolveNames unconditionally between ConvertModel and PushModelTo: items pushed to the solver have no (derived) names")
     tr = calls(pn, name="TransferNames2Node")
     t1.check(len(tr) == 2 and all(pn.cfg.dominates(cl[0], c) and pn.cfg.dominates(c, ps[0]) for c in tr) if cl and ps else False,
              "PresolveNames|sos-names", short_loc(pn.loc), "SOS constraint names (created at the top level) are put into their nodes between cleaning and presolving")
